@@ -86,11 +86,11 @@ def tempdir_format(mode, path, tmpbase):
     raise ValueError(mode)
 
 
-def run_one(col, scratch, fid, n, active, kin, npk, mode, compression, previous, p=6):
+def run_one(col, scratch, fid, n, active, kin, npk, mode, compression, previous, p=6, provenance="from_pandas"):
     import dask.dataframe as dd
     from spatialpandas.io import read_parquet_dask
     case = {"frame": fid, "n": n, "active": active, "input_partitions": kin, "npartitions": npk, "tempdir": mode,
-            "compression": compression, "previous": previous}
+            "compression": compression, "previous": previous, "provenance": provenance}
     work = os.path.join(scratch, f"w{os.getpid()}")
     shutil.rmtree(work, ignore_errors=True)
     os.makedirs(work)
@@ -98,7 +98,20 @@ def run_one(col, scratch, fid, n, active, kin, npk, mode, compression, previous,
     tmpbase = os.path.join(work, "tmpbase")
     os.makedirs(tmpbase)
     P0 = make_frame(fid, n, active)
-    ddf = dd.from_pandas(P0, npartitions=kin)
+    if provenance == "cached_filter":
+        # the frame to pack is a row selection of a larger frame whose partition bounds were already cached
+        import pandas as pd
+        from spatialpandas import GeoDataFrame
+        far = GeoDataFrame({"pts": L.make_array("point", [(-40, -40), (90, 70)], "float64"), "val": [9990, 9991],
+                            "polys": L.make_array("polygon", [(sq(-40, -40, -39, -39),), (sq(90, 70, 91, 71),)], "float64")},
+                           index=pd.Index([990, 991], name="idx"))
+        big = GeoDataFrame(pd.concat([P0, far]), geometry=active)
+        dbig = dd.from_pandas(big, npartitions=kin)
+        dbig.partition_sindex
+        _ = dbig.geometry.total_bounds
+        ddf = dbig[dbig["val"] < 9000]
+    else:
+        ddf = dd.from_pandas(P0, npartitions=kin)
     fmt, tmproot = tempdir_format(mode, path, tmpbase)
     kw = dict(npartitions=npk, p=p, compression=compression, tempdir_format=fmt, _retry_args=RETRY)
     if npk == 8 and (n + kin) % 2 == 0:
@@ -195,6 +208,15 @@ def plan(ctx):
                                 prevs = ("none", "larger", "smaller") if (T and kin == 1) else (("none", "none", "larger", "smaller")[(i + npk) % 4],)
                                 for prev in prevs:
                                     cases.append((fid, n, active, kin, npk, mode, comp, prev))
+    # more than ten INPUT partitions (sub-part files part10.parquet sort before part2.parquet as text)
+    for j, npk in enumerate((2, 3, 5) if not T else (1, 2, 3, 4, 5, 8)):
+        for active in ("pts", "polys"):
+            cases.append((2, 14, active, 12 + (j % 2) * 2, npk, TEMP_MODES[(j * 2 + 1) % 5], "snappy", "none"))
+    # frames that are row selections of a larger frame with cached partition bounds
+    for j, npk in enumerate((1, 2, 3, 4, 6, 9) if not T else range(1, 13)):
+        for fid, n in ((0, 5), (0, 8), (2, 14)):
+            for active in ("pts", "polys"):
+                cases.append((fid, n, active, 1 + (j + n) % 3, npk, TEMP_MODES[(j + n) % 5], "snappy", "none", 6, "cached_filter"))
     for j, npk in enumerate((11, 12, 13, 14, 16) if not T else range(9, 17)):
         for kin in (1, 3):
             for active in ("pts", "polys"):
@@ -226,5 +248,5 @@ def run(ctx):
 def replay(ctx, case):
     col = core.Collector()
     run_one(col, ctx.scratch(), case["frame"], case["n"], case["active"], case["input_partitions"], case["npartitions"],
-            case["tempdir"], case["compression"], case["previous"])
+            case["tempdir"], case["compression"], case["previous"], provenance=case.get("provenance", "from_pandas"))
     return col.violations
